@@ -61,10 +61,16 @@ def _selection(ctx, rep, cm):
     f = cm.func("ctparse")
     # the collected list
     lst = None
+    lst_def = None
     for n in ast.walk(f):
-        if isinstance(n, ast.Assign) and isinstance(n.value, ast.Call) and isinstance(n.value.func, ast.Name) \
-                and n.value.func.id == "list" and len(n.targets) == 1 and isinstance(n.targets[0], ast.Name):
-            lst = n.targets[0].id
+        if isinstance(n, ast.Assign) and len(n.targets) == 1 and isinstance(n.targets[0], ast.Name):
+            v_ = n.value
+            if isinstance(v_, ast.Call) and isinstance(v_.func, ast.Name) and v_.func.id == "list":
+                lst = n.targets[0].id
+            elif isinstance(v_, ast.ListComp) and len(v_.generators) == 1 and lst is None:
+                # the stream collected by a comprehension (possibly leaving out None)
+                lst = n.targets[0].id
+                lst_def = v_
     if lst is None:
         raise AnalysisError("anchor vanished: collected candidate list in ctparse()")
     # returns, as provenance terms (sa/checks/strterms.py): the selected element must be a
@@ -88,8 +94,30 @@ def _selection(ctx, rep, cm):
 
     def whole_stream(t):
         b = base_list(t)
+        if isinstance(b, tuple) and b and b[0] == "filter" and isinstance(b[1], tuple) and b[1] \
+                and b[1][0] == "call" and b[1][1] == "ctparse_gen":
+            # [p for p in stream if p is not None]: everything that is a candidate
+            conds = b[2]
+            return all(isinstance(c_, ast.Compare) and len(c_.ops) == 1 and isinstance(c_.ops[0], ast.IsNot)
+                       and isinstance(c_.comparators[0], ast.Constant) and c_.comparators[0].value is None
+                       for c_ in conds)
         return isinstance(b, tuple) and b and b[0] == "list" and isinstance(b[1], tuple) and \
             b[1][0] == "call" and b[1][1] == "ctparse_gen"
+
+    def ordering_is_score():
+        """max()/sorted() without a key order by CTParse.__lt__: it must compare the scores only"""
+        lt = cm.funcs.get("CTParse.__lt__")
+        if lt is None:
+            return False, "no key function and CTParse defines no ordering"
+        rets = [r_.value for r_ in ast.walk(lt) if isinstance(r_, ast.Return) and r_.value is not None]
+        a0 = lt.args.args[0].arg if lt.args.args else "self"
+        b0 = lt.args.args[1].arg if len(lt.args.args) > 1 else "other"
+        ok_ = len(rets) == 1 and isinstance(rets[0], ast.Compare) and len(rets[0].ops) == 1 \
+            and isinstance(rets[0].ops[0], ast.Lt) and norm(rets[0].left) == a0 + ".score" \
+            and norm(rets[0].comparators[0]) == b0 + ".score"
+        return ok_, "" if ok_ else "no key function: the order is CTParse.__lt__, which compares {}".format(
+            norm(rets[0])[:80] if rets else "?")
+    key_detail = [""]
     stream_ok = False
     for term, r in T.returns:
         if not isinstance(term, tuple) or not term:
@@ -99,7 +127,10 @@ def _selection(ctx, rep, cm):
         ok = None
         src = None
         if term[0] in ("max",):
-            ok = _key_is_score(term[2], cm)
+            if term[2] is None:
+                ok, key_detail[0] = ordering_is_score()
+            else:
+                ok = _key_is_score(term[2], cm)
             src = term[1]
         elif term[0] == "item" and isinstance(term[1], tuple) and term[1] and term[1][0] == "sorted":
             srt = term[1]
@@ -126,7 +157,8 @@ def _selection(ctx, rep, cm):
                      "no recognised best-score selection over the collected candidates")
     else:
         rep.add("selection", cm.rel + "::ctparse::returned candidate", where, bool(sel_ok),
-                "" if sel_ok else "the returned element is not a maximal-score element of the list")
+                "" if sel_ok else "the returned element is not a maximal-score element of the list" +
+                (" (" + key_detail[0] + ")" if key_detail[0] else ""))
     # empty iff empty
     ctor = [c for c in calls_in(f, "CTParse")]
     if not ctor:
@@ -156,7 +188,7 @@ def _selection(ctx, rep, cm):
             cur = getattr(cur, "_parent", None)
         ok = False
         if guard is not None:
-            ok = _empty_test(guard, lst, negate)
+            ok = _empty_test(guard, lst, negate, lst_def)
         rep.add("empty-iff-empty", cm.rel + "::ctparse::empty result guard", cm.where(c), ok,
                 "" if ok else "the result without resolution is built under the test '{}'".format(
                     norm(guard) if guard is not None else "<none>"))
@@ -178,9 +210,10 @@ def _selection(ctx, rep, cm):
             "" if ok else "the candidates are not list(ctparse_gen(...))")
 
 
-def _empty_test(test, lst, negate=False):
-    """Evaluate the guard on lists of length 0, [None], [x], [x, y]: must be true exactly
-    for the empty list and the single None."""
+def _empty_test(test, lst, negate=False, lst_def=None):
+    """Evaluate the guard on streams of length 0, [None], [x], [x, y]: must be true exactly
+    for the empty stream and the single None.  *lst_def*: the comprehension over the stream the
+    collected list is defined by (evaluated on the same streams), None for list(stream)."""
     from ..e1_model import PureEval
     results = []
     for val in ([], [None], ["x"], ["x", "y"], [None, "x"]):
@@ -192,6 +225,11 @@ def _empty_test(test, lst, negate=False):
         ev.genv = {}
         ev.budget = 10000
         try:
+            if lst_def is not None:
+                it = lst_def.generators[0].iter
+                if not isinstance(it, ast.Name):
+                    return False
+                val = ev.ev(lst_def, {it.id: val})
             r = ev.ev(test, {lst: val})
         except Undecided:
             return False
@@ -263,15 +301,31 @@ def _strict(ctx, rep, cm):
         d = st.targets[0].value.id
         key = st.targets[0].slice
         score = st.value
-        if d not in {x.id for x in ast.walk(node.test) if isinstance(x, ast.Name)}:
+        # a local that holds the looked-up value (best = D.get(K)) stands for that expression
+        test = node.test
+        locals_once = {}
+        for a_ in ast.walk(f):
+            if isinstance(a_, ast.Assign) and len(a_.targets) == 1 and isinstance(a_.targets[0], ast.Name):
+                locals_once.setdefault(a_.targets[0].id, []).append(a_.value)
+        lookups = {nm: vs[0] for nm, vs in locals_once.items() if len(vs) == 1 and any(
+            isinstance(x, ast.Name) and x.id == d for x in ast.walk(vs[0])) and nm != d}
+        if lookups:
+            test = _subst(test, {nm: v for nm, v in lookups.items()})
+        if d not in {x.id for x in ast.walk(test) if isinstance(x, ast.Name)}:
             continue
         n += 1
         c = "{}::_ctparse::re-emission guard on {}".format(cm.rel, d)
-        # evaluate the guard with the dict / key / score replaced by constants
+        # evaluate the guard with the dict / key / score replaced by constants; besides an
+        # ordinary score the boundary score 0.0 (a falsy stored value must not read as "absent")
         res = {}
+        zero = {}
         try:
-            for label, dv in (("absent", {}), ("lower", {"K": 4.0}), ("equal", {"K": 5.0}), ("higher", {"K": 6.0})):
-                t = _subst(node.test, {norm(key): ast.Constant(value="K"), norm(score): ast.Constant(value=5.0)})
+            for new_score, cases, sink in (
+                    (5.0, (("absent", {}), ("lower", {"K": 4.0}), ("equal", {"K": 5.0}), ("higher", {"K": 6.0})), res),
+                    (0.0, (("absent", {}), ("lower", {"K": -1.0}), ("equal", {"K": 0.0}), ("higher", {"K": 1.0})), zero),
+                    (-1.0, (("absent", {}), ("lower", {"K": -2.0}), ("equal", {"K": -1.0}), ("higher", {"K": 0.0})), zero)):
+              for label, dv in cases:
+                t = _subst(test, {norm(key): ast.Constant(value="K"), norm(score): ast.Constant(value=new_score)})
                 ev = PureEval.__new__(PureEval)
                 ev.model = None
                 ev.mod = None
@@ -279,15 +333,26 @@ def _strict(ctx, rep, cm):
                 ev.budget = 10000
                 env = {x.id: True for x in ast.walk(t) if isinstance(x, ast.Name)}
                 env[d] = dict(dv)
-                res[label] = bool(ev.ev(t, env))
+                got_ = bool(ev.ev(t, env))
+                if sink is res:
+                    res[label] = got_
+                else:
+                    zero.setdefault(label, []).append(got_)
         except Undecided as e:
             rep.undecided("strict-improvement", c, cm.where(node), str(e))
             continue
         want = {"absent": True, "lower": True, "equal": False, "higher": False}
         ok = res == want
+        if ok:
+            for lab, outs_ in zero.items():
+                if any(o_ != want[lab] for o_ in outs_):
+                    ok = False
+                    res = dict(res)
+                    res["stored or new score 0.0 / negative, " + lab] = outs_
         rep.add("strict-improvement", c, cm.where(node), ok,
-                "" if ok else "guard is {} on (absent, lower, equal, higher) stored scores".format(
-                    [res[k] for k in ("absent", "lower", "equal", "higher")]),
+                "" if ok else "guard is {} on (absent, lower, equal, higher) stored scores{}".format(
+                    [res[k] for k in ("absent", "lower", "equal", "higher")],
+                    "; with a score of 0.0 or below: {}".format({k: v for k, v in res.items() if k not in want}) if len(res) > 4 else ""),
                 witness=None if ok else res)
     rep.count("re_emission_guards", n, 2)
     # a guard on a dedup table whose guarded block emits without recording: the next
